@@ -3,6 +3,7 @@ use crate::engine::{Check, Run};
 use serde_json::Value;
 
 pub mod pipe;
+pub mod envchild;
 pub mod c01;
 pub mod c02;
 pub mod c03;
@@ -78,6 +79,7 @@ pub fn replay(id: &str, run: &Run, case: &Value) -> Check {
 
 pub fn child(args: &[String]) -> i32 {
     match args.first().map(|s| s.as_str()) {
+        Some("env-battery") => envchild::child(),
         Some("c16-race") => c16::race_child(args.get(1).and_then(|s| s.parse().ok()).unwrap_or(1)),
         _ => 2,
     }
